@@ -20,11 +20,12 @@ func init() {
 		Technique: "exhaustive enumeration of client message histories up to a depth bound over a 33-letter alphabet, replayed on a real server; every per-message reply and callback compared with a set-valued reference model of the extended protocol",
 		Rule:      "all histories of length <= d over the alphabet (statements \"\"/\"s\"/unknown \"u\", portals \"\"/\"p\"/\"u\"; parsers and handlers that succeed or fail); replies attributed per message by transport quiescence; distinct = distinct histories",
 		Assumptions: []string{
-			"not asserted (model forks): SQLSTATE/text of errors; reaction to oversized and unknown-type messages (error, optional ReadyForQuery, skipping or not); treatment of a simple Query while skipping; whether Close removes the name (C07); whether portals / the unnamed statement survive a Sync or simple Query",
+			"not asserted (model forks): SQLSTATE/text of errors; reaction to oversized and unknown-type messages (error, optional ReadyForQuery, skipping or not); whether Close removes the name (C07); whether portals / the unnamed statement survive a Sync or simple Query",
+			"two-connection family: each connection is judged by its own model instance, so the skip-until-Sync state must be per connection",
 		},
 		Enumerate:        c06Enumerate,
 		Bounds:           func(tier string) map[string]any { return c06Bounds(tier) },
-		RequiredOutcomes: []string{"no-error", "error-then-skip", "error-then-sync"},
+		RequiredOutcomes: []string{"no-error", "error-then-skip", "error-then-sync", "two-connections"},
 	})
 }
 
@@ -147,4 +148,88 @@ func c06Enumerate(tier string, emit explore.Emit) {
 	add(full, fd, "full-alphabet", -1)
 	add(core, cd, "core16", fd)
 	add(errcore, ed, "errcore8", cd)
+	// two connections on one server, message granularity: the error / skipping state of one
+	// connection must not influence the other (each is judged by its own model instance)
+	two := []xletter{errcore[0], errcore[1], errcore[2], errcore[4], errcore[7], full[28]} // Parse ok, Parse #perr, Bind, Execute, Sync, Query(ok)
+	td := 4
+	if tier == "thorough" {
+		td = 5
+	}
+	forShapes(2*len(two), td, func(sh []int) {
+		if len(sh) < 2 || sh[0] >= len(two) {
+			return // connection 0 moves first (symmetry)
+		}
+		steps := make([]c06TwoStep, len(sh))
+		both := false
+		for i, s := range sh {
+			steps[i] = c06TwoStep{conn: s / len(two), l: two[s%len(two)]}
+			if steps[i].conn == 1 {
+				both = true
+			}
+		}
+		if !both {
+			return
+		}
+		emit(explore.Case{Family: "two-connections", Size: 50 + len(steps),
+			Desc: func() any {
+				var n []string
+				for _, st := range steps {
+					n = append(n, fmt.Sprintf("c%d:%s", st.conn, st.l.Name))
+				}
+				return map[string]any{"interleaved_history": n}
+			},
+			Run: func() explore.Result { return c06RunTwo(steps) }})
+	})
+}
+
+type c06TwoStep struct {
+	conn int
+	l    xletter
+}
+
+func c06RunTwo(steps []c06TwoStep) explore.Result {
+	var res explore.Result
+	res.Outcome = "two-connections"
+	recs := [2]*script.Rec{{}, {}}
+	multi := &script.Multi{M: map[string]*script.Rec{}}
+	srv, err := harness.NewServer(multi.ParseFn())
+	if err != nil {
+		res.Engine = err.Error()
+		return res
+	}
+	defer srv.Stop()
+	var conns [2]*harness.Conn
+	sets := [2]xset{{xstate{}: true}, {xstate{}: true}}
+	for i := 0; i < 2; i++ {
+		mc := memnet.NewConn(fmt.Sprintf("mem:c%d", i))
+		multi.M[mc.Remote.String()] = recs[i]
+		conns[i] = srv.ConnectWith(mc)
+		conns[i].Step(pgproto.Startup("user", "u"))
+	}
+	var names []string
+	for i, st := range steps {
+		names = append(names, fmt.Sprintf("c%d:%s", st.conn, st.l.Name))
+		n := len(recs[st.conn].Evs)
+		out, status := conns[st.conn].Step(st.l.Bytes)
+		ms, perr := pgproto.ParseBackend(out)
+		if perr != nil {
+			res.Fail("reply-grammar", fmt.Sprintf("step %d %s: %v", i, names[i], perr))
+			return res
+		}
+		reply := pgproto.Kinds(ms)
+		cbs := cbSummary(recs[st.conn].Evs[n:])
+		if status != memnet.Parked {
+			res.Fail("connection-dropped", fmt.Sprintf("step %d %s: connection %s", i, names[i], status))
+			return res
+		}
+		next, trans, allowed := sets[st.conn].advance(st.l, reply, cbs)
+		if len(next) == 0 {
+			res.Fail("cross-connection-state", fmt.Sprintf("history %v: step %d %s answered %q callbacks %v; connection %d's own model (states %v) allows:\n%s", names, i, names[i], reply, cbs, st.conn, sets[st.conn].keys(), allowed))
+			return res
+		}
+		res.Trans = append(res.Trans, trans...)
+		sets[st.conn] = next
+	}
+	res.Key = strings.Join(names, " ")
+	return res
 }
